@@ -102,7 +102,7 @@ def run(ctx):
         ctx.broken.append({"kind": "shim-ineffective", "distinct_orders": len(perms)})
 
     rng = SplitMix(ctx.seed)
-    n = 36 if ctx.tier == "quick" else 1000
+    n = 34 if ctx.tier == "quick" else 1000
     factories = [()]
     if ctx.tier == "thorough":
         factories = [("--cfg=contexts/factory:" + f,) for f in ("raw", "boost", "thread")]
@@ -138,7 +138,7 @@ def run(ctx):
             outs.append((lay, o, out))
         return case, outs
 
-    results = common.pmap(one, cases, workers=4)
+    results = common.pmap(one, cases, workers=6)
     for (name, text, lays, args), outs in results:
         stats["programs"] += 1
         stats["runs"] += len(outs)
@@ -163,7 +163,7 @@ def run(ctx):
             if cur != ref:
                 same = False
                 d = common.first_diff(common.glines(ref_out), common.glines(out)) or common.first_diff(ref, cur)
-                key = common.classify(ref_out, out) if (ref_o == "ok" and o == "ok") else None
+                key = common.classify(ref_out, out, text) if (ref_o == "ok" and o == "ok") else None
                 ctx.violation("observation logs differ between two address-space layouts %s and %s: %r vs %r" % (ref_lay, lay, d[1], d[2]),
                               {"name": name, "program": text, "layouts": [list(ref_lay), list(lay)], "args": list(args),
                                "first_difference": {"line": d[0], "a": d[1], "b": d[2]}, "outcomes": [ref_o, o]}, key=key)
